@@ -161,12 +161,30 @@ func TestRegressCommitForOtherEncoding(t *testing.T) {
 			if precommitsFirst {
 				deliverKind("precommit", victim)
 			}
-			for i := 0; i < 10 && net.Nodes[victim].BlockStore.Height() < 1 && net.Nodes[victim].Crashed == ""; i++ {
+			// perfect gossip and timeouts from here, for every correct node (since the repair of
+			// C13-noncanonical-encoding-unsyncable correct nodes refuse the re-encoded proposal, the round fails and a
+			// later round decides: the demand stays the same - nobody halts, everybody decides)
+			undecided := func() bool {
+				for _, k := range correct {
+					if net.Nodes[k].BlockStore.Height() < 1 && net.Nodes[k].Crashed == "" {
+						return true
+					}
+				}
+				return false
+			}
+			for i := 0; i < 60 && undecided() && net.Nodes[victim].Crashed == ""; i++ {
 				if !net.Quiesce() {
 					t.Fatal("VERIF-INFRA: gossip did not converge")
 				}
-				if net.Nodes[victim].BlockStore.Height() < 1 {
-					net.Fire(victim)
+				for _, k := range correct {
+					if net.Nodes[k].BlockStore.Height() < 1 && net.Nodes[k].Crashed == "" {
+						net.Fire(k)
+					}
+				}
+			}
+			for _, k := range correct {
+				if k != victim && net.Nodes[k].Crashed != "" {
+					t.Fatalf("correct node %d halted with a consensus failure: %s\n%s", k, net.Nodes[k].Crashed, net.Tail(40))
 				}
 			}
 			v := net.Nodes[victim]
